@@ -289,6 +289,36 @@ def check_C08(ctx):
 # ---------------------------------------------------------------- C19
 COMBOS = ["", "d", "t", "s", "dt", "ds", "ts", "dts"]
 
+# operand classes of bytecode 1.1 (opcode.go / disasm.go), for an independent walk over the instruction boundaries
+_UV1 = {3, 4, 7, 8, 9, 29}        # SETLOCAL GETLOCAL SETFIELD GETFIELD CONST POPN: one uvarint
+_JMP = {25, 26, 27}               # JUMP LOOP JFALSE: u16
+
+
+def _uvsize(b0):
+    return 1 if b0 <= 240 else 2 if b0 <= 248 else b0 - 246
+
+
+def instr_offsets(code):
+    """offsets of the instruction boundaries of a code blob, or None if it does not tile"""
+    out, i = [], 0
+    while i < len(code):
+        out.append(i)
+        op = code[i]
+        i += 1
+        try:
+            if op in _UV1:
+                i += _uvsize(code[i])
+            elif op in _JMP:
+                i += 2
+            elif op == 5:               # DEFBLOCK: two uvarints
+                i += _uvsize(code[i])
+                i += _uvsize(code[i])
+            elif op == 30:              # BIND: uvarint + byte
+                i += _uvsize(code[i]) + 1
+        except IndexError:
+            return None
+    return out if i == len(code) else None
+
 
 def check_C19(ctx):
     ctx.build(["Proofs/TieFormat.vo", "Proofs/TieVm.vo", "Properties/C19.vo"], "Properties/C19.v")
@@ -304,7 +334,7 @@ def check_C19(ctx):
         for o in COMBOS:
             cases.append(dict(id="o%d/%s" % (i, o), src=p, opts=o, name=rng.choice(["input", "", "f.bcl"]) if False else "input"))
     rs, missing, err = interp.run(ctx, cases)
-    decide(ctx, rs, missing, err, {"out", "blocks", "binding", "err", "log"}, "C19_results_equal", "opts", spec=False)
+    decide(ctx, rs, missing, err, {"outws", "blocks", "binding", "err", "log"}, "C19_results_equal", "opts", spec=False)
     by = {}
     for c, o, m in rs:
         if o is not None:
@@ -332,6 +362,16 @@ def check_C19(ctx):
             if not all(any(l == x for x in it) for l in plain):
                 ctx.violation("lines printed by the program are not preserved under options %r" % oname, case, impl=o, model=b,
                               theorem="C19_print_lines", key="opts-change-output")
+            if "d" in oname and interp.go_class(o) != "parse" and o["Parts"]:
+                # the disassembly (the part before any trace line) lists every instruction once, at its offset, in order
+                code = bytes.fromhex(dict(kv.split("=", 1) for kv in o["Parts"].split(" ") if "=" in kv).get("code", ""))
+                want = instr_offsets(code)
+                out = bytes.fromhex(o["Out"])
+                head = out.split(b"             0: ")[0] if "t" in oname else out
+                got = [int(x) for x in re.findall(rb"^(\d{4,}) ", head, re.M)]
+                if want is not None and got[:len(want)] != want:
+                    ctx.violation("the disassembly does not list each instruction exactly once at its offset", case,
+                                  impl=dict(listed=got[:40], boundaries=want[:40]), theorem="C19_disasm_tiles", key="disasm-offsets")
             if "t" in oname and "s" in oname and o["Class"] in ("ok", "err") and interp.go_class(o) != "parse":
                 out = bytes.fromhex(o["Out"])
                 mm = re.search(rb"xstats.opsRead:\s+(\d+)", out)
